@@ -59,10 +59,29 @@ def make_scenarios(ctx, n):
             prior = "one"
             o = [dict(x, meph=2) for x in o]
             subtree = "/m/n"
+        if i == 7:
+            # the previous backup was itself killed, while writing its LAST index hunk (the file is there, empty), after
+            # recording more paths than the backup under test will: the listing continues in it, then in the one before
+            def f7(d, m):
+                return {"k": "f", "data": d.hex(), "mode": 0o644, "mtime": 10**18 + m}
+            t0 = {"k": "d", "mode": 0o755, "mtime": 10**18, "c": {"f%02d" % k: f7(b"v0-%d" % k, k) for k in range(9)}}
+            t1 = {"k": "d", "mode": 0o755, "mtime": 10**18, "c": {"f%02d" % k: f7(b"v1-%d!" % k, 100 + k) for k in range(9)}}
+            t2 = {"k": "d", "mode": 0o755, "mtime": 10**18, "c": {"f%02d" % k: f7(b"v2-%d!!" % k, 200 + k) for k in range(9)}}
+            o = [dict(x, meph=3, sfc=0) for x in o]
+            probe = ctx.cvh_run([{"id": "p", "steps": [{"op": "init"}, {"op": "mktree", "path": "src", "tree": t0}, {"op": "backup", "opts": o[0]},
+                                                       {"op": "mktree", "path": "src", "tree": t1}, {"op": "backup", "opts": o[1]}]}]).get("p")
+            kk = None
+            if probe and probe[4].get("trace"):
+                tr_ = l4.canon_trace(probe[4]["trace"])
+                hunks_ = [n_ for n_, it in enumerate(tr_) if it["verb"] == "Write" and "/i/" in it["path"]]
+                if len(hunks_) >= 3:
+                    kk = hunks_[-1]
+            prior = "one+emptyhunk" if kk is not None else "one"
+            subtree = "/f05"
         if subtree is None:
             dirs = sorted({p for t in (t0, t2) for p, n in gen.tree_paths(t) if n["k"] == "d" and p != "/"})
             subtree = ctx.rng.choice(dirs) if dirs else "/"
-        out.append({"id": f"K{i}", "prior": prior, "t0": t0, "t1": t1, "t2": t2, "o": o, "subtree": subtree})
+        out.append({"id": f"K{i}", "prior": prior, "t0": t0, "t1": t1, "t2": t2, "o": o, "subtree": subtree, "kk": kk if i == 7 else None})
     return out
 
 
@@ -80,6 +99,9 @@ def base_steps(sc):
         # a backup killed while writing its head: BANDHEAD exists with no content
         steps += [{"op": "mktree", "path": "src", "tree": sc["t1"]}, {"op": "walk"},
                   {"op": "backup", "opts": sc["o"][1], "plan": {"crash_empty": 6}}]
+    if sc["prior"] == "one+emptyhunk":
+        steps += [{"op": "mktree", "path": "src", "tree": sc["t1"]}, {"op": "walk"},
+                  {"op": "backup", "opts": sc["o"][1], "plan": {"crash_empty": sc["kk"]}}]
     if sc["prior"] == "one+interrupted":
         steps += [{"op": "mktree", "path": "src", "tree": sc["t1"]}, {"op": "walk"},
                   {"op": "backup", "opts": sc["o"][1], "plan": {"crash": 22}}]
@@ -88,7 +110,7 @@ def base_steps(sc):
 
 
 def nbands_before(sc):
-    return {"none": 0, "one": 1, "two": 2, "one+interrupted": 2, "one+headless": 2, "one+emptyhead": 2}[sc["prior"]]
+    return {"none": 0, "one": 1, "two": 2, "one+interrupted": 2, "one+headless": 2, "one+emptyhead": 2, "one+emptyhunk": 2}[sc["prior"]]
 
 
 def after_steps(sc, nb):
@@ -105,7 +127,7 @@ def after_steps(sc, nb):
 
 def run(ctx):
     quick = ctx.tier == "quick"
-    scs = make_scenarios(ctx, 7 if quick else 60)
+    scs = make_scenarios(ctx, 8 if quick else 60)
     ctx.cov["rule"] = ("scenarios (0-2 earlier versions, possibly an interrupted one; a new source tree; options) x EVERY index k of the backup's "
                        "storage trace: stop before operation k, and for every write also stop after creating the file empty; then: the archive "
                        "opens, every previously completed version restores as before (by id and by 'latest complete'), no index entry refers to a "
@@ -172,7 +194,7 @@ def run(ctx):
             want = sc["ref"][nbase + b]
             if want.get("result") == "ok":
                 got = olds[b]
-                if got.get("result") != "ok" or got.get("monitor_errors") or scen.first_difference(scen.strip(want.get("tree")), scen.strip(got.get("tree"))):
+                if got.get("result") != "ok" or len(got.get("monitor_errors") or []) != len(want.get("monitor_errors") or []) or scen.first_difference(scen.strip(want.get("tree")), scen.strip(got.get("tree"))):
                     ctx.oracle_fail("crash/old-version-changed", f"after {kind} at op {k}, completed version b{b:04d} no longer restores as before: "
                                                                  f"{json.dumps(got.get('err') or got.get('monitor_errors'))[:160]}", small)
                     bad = True
